@@ -90,12 +90,17 @@ Definition judge_asarray (c : asarray_case) : Z :=
    (out of range / not strictly increasing / data length) | 4 shape, fill or data <> request / sampler output
    | 5 observed branch <> branch of the generated chain (representation) | 6 plan outside plan_okb
    | 7 two runs with the same seed differ *)
-Definition random_out := (raw * (Z * bool) * (Z * Z * Z) * bool)%type.
+Definition random_out := (raw * (Z * Z * list Z) * (Z * Z * Z) * bool)%type.
 
-(* the sampler's output: the harness' sampler returns 1..n (arange) — or floats, of which only the number is
-   compared (the harness then reports every stored value as 1) *)
-Definition sampler_output (s : Z * bool) : list Z :=
-  let '(n, ar) := s in if ar then map (fun i => i + 1) (zrange n) else map (fun _ => 1) (zrange n).
+(* the sampler's output: (n it was called with, kind, recorded values)
+   kind 0: the default float sampler, of which only the number is compared (the harness then reports every
+   stored value as 1) | 1: the harness' arange sampler 1..n | 2: the values the sampler handed out, recorded
+   by the harness (samplers that return the fill value: the stored data must still be exactly these) *)
+Definition sampler_output (s : Z * Z * list Z) : list Z :=
+  let '(n, kind, rec) := s in
+  if kind =? 0 then map (fun _ => 1) (zrange n)
+  else if kind =? 1 then map (fun i => i + 1) (zrange n)
+  else if Z.of_nat (length rec) =? n then rec else (-1) :: rec.   (* wrong length handed out: never equal *)
 Definition random_case := (list Z * option (Z * Z) * option Z * Z * option random_out)%type.
 
 Definition plan_args (p : plan) : Z * Z :=
